@@ -280,6 +280,7 @@ func (e *enc) instr(b *ssa.BasicBlock, st *State, ins ssa.Instruction) {
 		e.syncPoint(st, "send")
 		_ = e.val(x.X)
 		e.sendClauses(st, x.Chan, x.X, x.Pos())
+		e.countSend(st, x.Chan, "")
 	case *ssa.Panic:
 		txt := e.srcText(x.Pos(), func(n ast.Node) bool { _, ok := n.(*ast.CallExpr); return ok })
 		if txt == "" {
@@ -843,6 +844,7 @@ func (e *enc) selectInstr(st *State, x *ssa.Select) {
 	for k, s := range x.States {
 		if s.Dir == types.SendOnly {
 			e.sendClauses(st, s.Chan, s.Send, s.Pos)
+			e.countSend(st, s.Chan, fmt.Sprintf("(= %s %d)", idx, k))
 		}
 		// "recv <chan> flag <name>": ghost boolean that becomes true when this case is taken
 		if s.Dir == types.RecvOnly && e.c != nil {
